@@ -82,6 +82,7 @@ def gen_for(kinds, tier, seed, salt):
         cases.append(mk(rng, rng.choice(kinds), t, None if rng.random() < 0.4 else pick(0.7),
                         None if rng.random() < 0.5 else pick(0.2),
                         rng.choice([None, None, 0, 1, 2, 3]), rich=True))
+    gen.sprinkle_adv(cases)
     dist = {"exhaustive_cases": nexh, "rich_random_cases": nrich, "by_kind": {}}
     for c in cases:
         dist["by_kind"][c["kind"]] = dist["by_kind"].get(c["kind"], 0) + 1
